@@ -32,6 +32,8 @@ pub struct Report {
     pub cur_index: u64,
     pub cur_seed: u64,
     pub verbose: bool,
+    /// per-case staging area used by monitors that report only the root-cause violation
+    pub staged: Vec<(u32, String, String)>,
 }
 
 pub const MAX_SAMPLES: usize = 6;
